@@ -367,6 +367,7 @@ def run(facts, rep, prop):
             for (sw, desc, site) in found:
                 uniq.setdefault(sw, (desc, site))
             if len(uniq) < minc:
+                n_guard += minc - len(uniq)  # a removed guard is a violation, not a reason for the floor to fail
                 rep.violation(
                     "guardfx",
                     short,
@@ -374,7 +375,6 @@ def run(facts, rep, prop):
                     "refusal guard `%s` not found in %s (expected %d, found %d): the check was removed or no longer branches" % (gname, row["fn"], minc, len(uniq)),
                     site=body.span,
                 )
-                continue
             for sw, (desc, site) in sorted(uniq.items()):
                 n_guard += 1
                 my_effects = [(n, b, i, s) for (n, b, i, s) in effects if subset is ALL or n in subset]
